@@ -3,6 +3,10 @@
 import json
 props=[json.loads(l) for l in open('/verif/properties.jsonl')]
 claimed={
+ "C13": dict(level="model_checking",
+   text="Bounded symbolic execution of NewRef -> String -> NewRef, the classification flags, and the JSON and gob codecs of Ref on reference strings whose every byte is an unconstrained solver variable (all 256 values), for every length up to the bound; net/url, strings, jsonreference and jsonpointer run from their SSA. Each path's obligations are solver verdicts over all byte values of that path's class; counterexamples are replayed on the real build.",
+   note="Trusted: SSA executor (reachability witnesses replayed natively each run), z3, M-regexp (two regexes as reference Go), M-json/M-gob value-level models. Bounds: length <= 3 quick / 4 thorough; valid UTF-8; no userinfo/opaque.",
+   design="4 C13", technique="bounded symbolic execution of go/ssa (byte-vector strings) + SMT (z3), counterexample replay on the real build"),
  "C20": dict(level="model_checking",
    text="Bounded symbolic execution (go/ssa -> SMT, z3) of every validation accessor, clear and has-query on fully symbolic carriers: each of ~1.5e5 obligations is a solver verdict over all 64-bit values, nil-ness combinations, booleans and opaque strings; container sizes are the only bounds. Counterexamples are replayed against the real build before being reported.",
    note="Trusted: the SSA executor (validated per run by replaying reachability witnesses natively), z3; structural equality primitive vDeepEq. Bounds: enum <= 2/3 elements, callbacks <= 2/3, patternProperties <= 1 entry.",
